@@ -6,6 +6,7 @@
 package netx
 
 import (
+	"errors"
 	"fmt"
 	"os"
 	"verifharness/chainx"
@@ -176,6 +177,7 @@ func Heavier(cw, tw, td *big.Int) bool {
 type BanCall struct {
 	Addr   string
 	Reason string
+	Failed bool // the store answered this call with an (injected) error
 }
 
 // RecStore is a syncer.PeerStore that records Ban calls (and otherwise behaves like
@@ -194,7 +196,21 @@ type RecStore struct {
 	cb    func()
 	stuck string
 	busy  int // Ban calls waiting for their callback
+	fail  func(addr string, nth int) bool
 }
+
+// FailBans installs an injected failure: Ban calls for which fail(addr, n) holds (n = number of
+// the call, from 1) are recorded and then answered with an error, like a store whose database is
+// unavailable or that does not accept CIDR entries. A failing store is the node's own trouble: the
+// syncer must neither stall nor crash.
+func (r *RecStore) FailBans(fail func(addr string, nth int) bool) {
+	r.mu.Lock()
+	r.fail = fail
+	r.mu.Unlock()
+}
+
+// ErrBanFailed is the injected failure of RecStore.Ban.
+var ErrBanFailed = errors.New("netx: injected peer store failure")
 
 // BanCallbackWait bounds the wait for the store's call back into the syncer.
 const BanCallbackWait = 6 * time.Second
@@ -203,8 +219,13 @@ func NewRecStore() *RecStore { return &RecStore{EphemeralPeerStore: testutil.New
 
 func (r *RecStore) Ban(addr string, d time.Duration, reason string) error {
 	r.mu.Lock()
-	r.bans = append(r.bans, BanCall{addr, reason})
+	failed := r.fail != nil && r.fail(addr, len(r.bans)+1)
+	r.bans = append(r.bans, BanCall{addr, reason, failed})
 	cb := r.cb
+	if failed {
+		r.mu.Unlock()
+		return ErrBanFailed
+	}
 	if cb != nil {
 		r.busy++
 	}
@@ -341,6 +362,14 @@ func (nt *Net) NewOldStoreNode(blocks []types.Block, ip string, opts ...syncer.O
 		return nil, k, fmt.Errorf("reopening the store: %w", err)
 	}
 	return nt.NewNodeWith(chain.NewManager(store, tipState), ip, opts...), k, nil
+}
+
+// NewFlushFaultNode starts a node whose manager runs over a chainx.ProbeStore on a chainx.FaultDB
+// (chainx.NewProbedNode): probe.FailNextFlush() makes the next Store.Flush that has something to
+// write fail once — the one fallible call of the store, made at the end of a reorg.
+func (nt *Net) NewFlushFaultNode(ip string, opts ...syncer.Option) (*Node, *chainx.ProbeStore) {
+	pn := (&chainx.Net{N: nt.N, Genesis: nt.Genesis}).NewProbedNode()
+	return nt.NewNodeWith(pn.CM, ip, opts...), pn.Probe
 }
 
 func (n *Node) Addr() string { return n.L.Addr().String() }
